@@ -241,19 +241,21 @@ class Scheduler(object):
         return edges
 
     # ------------------------------------------------------------------ core
-    def _pick(self, cur):
+    def _pick(self, cur, yielding=False):
         """Return the thread to run next (possibly cur); ends the execution if none."""
         threads = self.threads
         self.in_pred = True
         try:
-            return self._pick2(cur, threads)
+            return self._pick2(cur, threads, yielding)
         finally:
             self.in_pred = False
 
-    def _pick2(self, cur, threads):
+    def _pick2(self, cur, threads, yielding):
         while True:
             n = len(threads)
-            start = cur.idx
+            start = cur.idx + 1 if yielding else cur.idx
+            if start == n:
+                start = 0
             enabled = []
             clock = self.clock
             if self.order == "rr":
@@ -328,7 +330,7 @@ class Scheduler(object):
         self.internal_error = "replay divergence: " + msg
         self._end("divergence", cur, raise_abort=True, detail=msg)
 
-    def switch(self, lt, pred=None, deadline=None, on=None, kind="point", loc=None):
+    def switch(self, lt, pred=None, deadline=None, on=None, kind="point", loc=None, yielding=False):
         """Scheduling point for the running thread lt; returns when lt is chosen again."""
         if self.phase != "run":
             raise Abort()
@@ -351,7 +353,7 @@ class Scheduler(object):
         self.steps += 1
         if self.steps > self.step_cap:
             self._end("livelock", lt)
-        nxt = self._pick(lt)
+        nxt = self._pick(lt, yielding)
         if nxt is lt:
             lt.pred = None
             lt.deadline = None
@@ -812,11 +814,15 @@ class Condition(_Prim):
 
 
 class Event(_Prim):
-    __slots__ = ("_flag",)
+    """threading.Event semantics, including the one that matters for pulse patterns: set()
+    wakes every thread that is waiting at that moment, even if the flag is cleared again before
+    the waiter gets to run (the real implementation notifies a condition)."""
+    __slots__ = ("_flag", "_waiters")
 
     def __init__(self):
         self._init()
         self._flag = False
+        self._waiters = []
 
     def desc(self):
         return "Event#%d(%s)" % (self._serial, self._flag)
@@ -834,15 +840,17 @@ class Event(_Prim):
     def set(self):
         live = self._live()
         if live is None:
-            # stale or foreign caller.  A foreign *logical* caller cannot exist; a stale
-            # primitive must stay inert so that late weakref callbacks of a previous
-            # execution cannot disturb the current one.
+            # stale or foreign caller.  A stale primitive must stay inert so that late weakref
+            # callbacks of a previous execution cannot disturb the current one.
             if self._s is None:
                 self._flag = True
             return
         s, lt = live
         s.switch(lt, kind="event.set")
         self._set_flag(s, True)
+        for w in self._waiters:
+            w[0] = True
+        del self._waiters[:]
 
     def clear(self):
         live = self._live()
@@ -861,9 +869,23 @@ class Event(_Prim):
                 raise Abort()
             return self._flag
         s, lt = live
+        if self._flag:
+            # already set: returns at once, but acts as a yield so that polling loops cannot
+            # starve the other threads under the default schedule
+            s.switch(lt, kind="event.wait", yielding=True)
+            return True
         dl = None if timeout is None else s.clock + max(timeout, EPS)
-        s.switch(lt, pred=self.is_set, deadline=dl, on=self, kind="event.wait")
-        return self._flag
+        w = [False]
+        self._waiters.append(w)
+        try:
+            s.switch(lt, pred=lambda: w[0], deadline=dl, on=self, kind="event.wait")
+        finally:
+            if not w[0]:
+                try:
+                    self._waiters.remove(w)
+                except ValueError:
+                    pass
+        return w[0]
 
     def _at_fork_reinit(self):
         pass
